@@ -31,6 +31,7 @@ var harnesses = map[string]replayHarness{
 	"kubernetes": {PkgDir: "pkg/shard/kubernetes", Source: "kubernetes.go.txt"},
 	"explore": {PkgDir: "pkg/explore", Source: "explore.go.txt"},
 	"discovery": {PkgDir: "pkg/discovery", Source: "discovery.go.txt"},
+	"prom":      {PkgDir: "pkg/prom", Source: "prom.go.txt"},
 }
 
 var numRe = regexp.MustCompile(`\b[0-9]{1,13}\b`)
